@@ -104,3 +104,12 @@ claim("C13",
        "the mutex acquisition order is acyclic. Necessary structural conditions for 'nothing stays blocked'; the settling time and the relative timing of cause and in-flight traffic are NOT decided.",
   note="Trusted: go/ssa, VTA call graph (for lock order through interfaces), context/errgroup/net semantics (closing a socket fails a blocked Read/Accept), the frozen exception tables.",
   design_ref="DESIGN.md §3 C13, §2 E3")
+
+claim("C01",
+  category="proof",
+  technique="byte-layout inference over go/ssa (a compositional effect/type inference: atoms for leaf producers, constants for literal bytes, linear forms for lengths), per-path comparison of the assembled layout with the length function, dominance and who-may-write checks",
+  text="Proof relative to the layout model: for every path of the serializer the inferred layout of Message.prepared is BeginString·SOH·BodyLength·SOH·MsgType·(SOH·non-empty part)*·SOH·10=CHK·SOH; the integer stored into the BodyLength value equals, as a linear form over the atoms' lengths, "
+       "the length of the region it must measure, for every consistent combination of emptiness conditions; CHK is the checksum function applied to exactly the emitted prefix, and that function adds every byte once plus one SOH modulo 256 as three zero-padded digits; only Prepare writes the image and ToBytes returns it only after a successful Prepare. "
+       "Because atoms are opaque, the statement covers every template, population and value (digit-count and modulo boundaries need no case split). Every obligation must be discharged; none is excepted.",
+  note="Trusted base: go/ssa lowering; the transfer functions for bytes.Join/append/len/conversions in checker/an/seq.go; fmt's %03s/%03d padding and strconv.Itoa; the leaf producers' loop-shape summaries (rule S2, checked); assumption A1 (MsgType non-empty) and the property's own precondition that values contain no SOH.",
+  design_ref="DESIGN.md §3 C01, §2 E5")
